@@ -1,5 +1,5 @@
 """C11 - Non-revocation proofs are sound and tied to the credential (NonRev.tla)."""
-import os, json, vplib
+import os, json, vplib, memostage
 
 def run(chk):
     T = chk.tier
@@ -58,12 +58,23 @@ def run(chk):
     open(lp, "w").write("\n".join(lives) + "\n")
     res = vplib.vh("nr", ["lifecycle", "--in", lp, "--tier", T, "--seed", str(chk.seed), "--n", str(4000 if thorough else 700)], timeout=3300)
     chk.add_replay(res, "life_cycles")
+    # the SignedAccumulator object in the witness of a stored credential (SaccMemo.tla), and the entry points of non-revocation proofs
+    # on witnesses that were built, stored, or stored incompletely (RevAPI.tla, scenarios "prove")
+    ga = vplib.tlc_mc("RevAPIGen", "RevAPI.cfg", workers=1, timeout=300)
+    prove = sorted(x for x in set(ga.tagged_raw_json("A")) if '"call":"prove"' in x)
+    chk.add_tlc(ga, "RevAPIGen", "RevAPI.cfg", "Total, FailLeavesUnchanged; %d proof-entry scenarios" % len(prove))
+    if len(prove) != 12:
+        raise vplib.Machinery("%d proof-entry scenarios" % len(prove))
+    memostage.run(chk, vplib.sub("c11"), api_scen=prove)
     res = vplib.vh("nr", ["d10", "--tier", T, "--seed", str(chk.seed)], timeout=600)
     chk.add_replay(res, "known_finding_D10")
     chk.exhaustive = not thorough
 
 def replay(chk, path):
     v = json.load(open(path))
+    rc = memostage.replay(chk, v, path, vplib.sub("c11"))
+    if rc is not None:
+        return rc
     if "history" not in v:
         print("no history in replay file"); return 2
     cp = os.path.join(vplib.sub("c11"), "one.ndjson")
